@@ -569,8 +569,8 @@ def _nums(items) -> list:
                  "the SAME run id (symbolic) or a fresh one. A runtime may refuse the reused id; a run it does start reports, while its step "
                  "is blocked, exactly that step as running, that event in progress and the rest queued, and its state is still computable "
                  "after it finished",
-            bounds={"left-over events": "1..2", "run id": "reused / fresh"})
-def ob_continued_run_reports_its_own_state(left: int, reuse: bool) -> bool:
+            bounds={"left-over events": "1..2", "run id": "reused / fresh", "verbose": "False / True (VerboseDecorator in the adapter chain)"})
+def ob_continued_run_reports_its_own_state(left: int, reuse: bool, verbose: bool = False) -> bool:
     """
     pre: 1 <= left <= 2
     post: _
@@ -579,13 +579,13 @@ def ob_continued_run_reports_its_own_state(left: int, reuse: bool) -> bool:
 
     from vlib.miniloop import MiniLoop
 
-    left, reuse = conc(left, 1, 2), concb(reuse)
+    left, reuse, verbose = conc(left, 1, 2), concb(reuse), concb(verbose)    # verbose=True wraps the runtime in the printing decorator
     out: dict = {"problems": []}
 
     async def main():
         _CGATES.clear()
         _CENTERED.clear()
-        wf = _FirstWins(timeout=None)
+        wf = _FirstWins(timeout=None, verbose=verbose)
         _CGATES[1] = asyncio.Event()
         batch = [1, 2, 3][: left + 1]
         h1 = wf.run(run_id="job-1", batch=batch)
